@@ -20,6 +20,7 @@ From Verif.Eco.Npm Require Entry.
 From Verif.Eco.Alpm Require Entry.
 From Verif.Eco.Composer Require Entry.
 From Verif.Eco.Cargo Require Entry.
+From Verif.Eco.Gem Require Entry.
 
 Definition ecosystems : list eco := [
   Cran.Entry.entry;
@@ -40,5 +41,6 @@ Definition ecosystems : list eco := [
   Npm.Entry.entry;
   Alpm.Entry.entry;
   Composer.Entry.entry;
-  Cargo.Entry.entry
+  Cargo.Entry.entry;
+  Gem.Entry.entry
 ].
